@@ -128,6 +128,15 @@ def regenerate_guards(pid):
         hold = ht.read_text() if ht.exists() else ""
         if htext != hold: ht.write_text(htext)
         info["holdouts"] = {"module": "LK.Gen.HoldoutC05", "obligations": "LK/Proofs/HoldoutC05.lean", "function": "splitting/holdout.py: SampleN, SampleFrac, LastN, LastFrac", "changed_since_last_run": htext != hold}
+    if pid == "C19":
+        # the `linear` transform of the stochastic ranker (translate/py2lean_imp.py)
+        import py2lean_imp
+        lt = LEAN_DIR / "LK" / "Generated" / "ImpC19.lean"
+        try: ltext = py2lean_imp.translate_linear(os.path.dirname(lenskit.__file__))
+        except py2lean_imp.Unsupported as e: return "untranslatable", f"StochasticTopNRanker linear transform: {e}", info
+        lold = lt.read_text() if lt.exists() else ""
+        if ltext != lold: lt.write_text(ltext)
+        info["linear_weights"] = {"module": "LK.Gen.ImpC19", "obligations": "LK/Proofs/ImpC19.lean", "function": "stochastic/_ranker.py:StochasticTopNRanker.__call__ (linear case)", "changed_since_last_run": ltext != lold}
     if pid == "C07":
         # the methods of RMSE / MAE (translate/py2lean_agg.py)
         import py2lean_agg
